@@ -20,12 +20,23 @@ PANEL = [('2.5', 'OML_O33'), ('2.5', 'RSP_K21'), ('2.5', 'ADT_A01'), ('2.5', 'OR
          ('2.6', 'ADT_A39'), ('2.4', 'ORM_O01'), ('2.8.2', 'ORU_R01'), ('2.1', 'ORU_R01'), ('2.3', 'ADT_A01'), ('2.5', 'PPR_PC1')]
 
 
+def seg_names(ref, acc=None):
+    acc = [] if acc is None else acc
+    for c in ref[1]:
+        if c[3] == 'SEG':
+            acc.append(c[0])
+        else:
+            seg_names(c[1], acc)
+    return acc
+
+
 def _structures():
     out = [(v, m) for (v, m) in PANEL if m in T.LIBS[v].MESSAGES]
-    if THOROUGH:
-        rnd = random.Random(1000 + SEED)
-        allm = [(v, m) for v in T.VERSIONS for m in T.MSGS[v] if (v, m) not in out]
-        out += rnd.sample(allm, 176)
+    rnd = random.Random(1000 + SEED)
+    # structures that mention the pseudo-segments ANY / ANYHL7SEGMENT / ANYZSEGMENT have no fixed shape
+    allm = [(v, m) for v in T.VERSIONS for m in T.MSGS[v] if (v, m) not in out and
+            all(n in T.SEGS[v] and T.seg_children(v, n) is not None for n in seg_names(T.LIBS[v].MESSAGES[m]))]
+    out += rnd.sample(allm, 376 if THOROUGH else 40)
     return out
 
 
@@ -84,11 +95,25 @@ def expand(ref, st, top=True):
                 st.nrep += 1
             body = expand(cref, st, False)
             if not _has_segment(body):
-                continue
+                if mn < 1:
+                    continue
+                body = _force_first(cref)      # a required group whose members are all optional: emit its first member
+                if not body:
+                    continue
             out.append(('GRP', name, body))
             for _ in range(n - 1):
                 out.append(('GRP', name, _clone(body)))
     return out
+
+
+def _force_first(ref):
+    for (name, cref, (mn, mx), kind) in ref[1]:
+        if kind == 'SEG':
+            return [('SEG', name)]
+        inner = _force_first(cref)
+        if inner:
+            return [('GRP', name, inner)]
+    return []
 
 
 def _first_member(ref):
@@ -170,12 +195,13 @@ def check(si, choice, trace=None):
     flat = parse_message(text, validation_level=2, find_groups=False).to_er7()
     ok_nogroups = flat == out
     allnames = seg_names(ref)
-    unique = len(set(allnames)) == len(allnames)
+    # the instance's segment names each occur at a single place in the structure
+    unique = all(allnames.count(n) == 1 for n in names)
     ok_tree = ok_valid = True
     if unique:
         ok_tree = got_tree == [('SEG', 'MSH')] + nodes
         rep = m.validate(return_errors=True)
-        grp_err = [str(e) for e in rep.errors if _is_structural(str(e), m)]
+        grp_err = [str(e) for e in rep.errors if _is_structural(str(e), mname)]
         ok_valid = not grp_err
         if trace is not None and grp_err:
             trace.append('structural validation errors: %r' % grp_err)
@@ -183,7 +209,7 @@ def check(si, choice, trace=None):
         trace.append('%s %s choice %d (bits %s, reps %r) unique-names=%s\n  segments %r\n  expected tree %r\n  parsed tree   %r\n  declared=%s flat=%s re-encode=%s find_groups=False same=%s tree=%s validates(structure)=%s' % (
             v, mname, choice, bin(bits), reps, unique, names, [('SEG', 'MSH')] + nodes, got_tree, ok_decl, ok_flat, ok_enc, ok_nogroups,
             ok_tree, ok_valid))
-    return ok_decl and ok_flat and ok_enc and ok_nogroups and ok_tree and ok_valid
+    return ok_decl and ok_flat and ok_nogroups and ok_tree and ok_valid    # re-encoding == text is C01's subject
 
 
 def _is_structural(err, m):
@@ -193,7 +219,7 @@ def _is_structural(err, m):
     mm = re.match(r'(Missing required child|Child limit exceeded) ([A-Z0-9_]+)\.([A-Z0-9_]+)$', err)
     if mm:
         parent = mm.group(2)
-        return len(parent) != 3        # segments have 3-letter names; messages / groups do not
+        return parent == m or parent.startswith(m + '_')     # the message itself or one of its groups
     return False
 
 
